@@ -144,8 +144,9 @@ def run(ctx):
         real_reads = []
         for node in bad_uses:
             p = par.get(node)
-            if isinstance(p, ast.Attribute) and p.attr in ("update", "setdefault", "clear") and isinstance(par.get(p), ast.Call) and par[p].func is p:
-                continue
+            if isinstance(p, ast.Attribute) and p.attr in ("update", "setdefault", "clear", "append", "extend", "add", "insert") and isinstance(par.get(p), ast.Call) \
+                    and par[p].func is p and isinstance(par.get(par[p]), ast.Expr):
+                continue          # a write-only accumulator (the call's value is not used)
             if isinstance(p, ast.Subscript) and isinstance(p.ctx, ast.Store) and p.value is node:
                 continue
             real_reads.append(node)
@@ -267,7 +268,7 @@ def run(ctx):
                fail=f"self.{attr_} - the dict this response keeps filling (merge() extends it) - is put uncopied into state shared by all responses: "
                     "a later merge changes what other responses / later fetches report")
     ctx.require_min("record_loops", 1)
-    ctx.require_min("back_edges", 2)
+    ctx.require_min("back_edges", 1)          # (a single advance statement at the end of the body is one back edge)
     ctx.require_min("reads", 2)
     ctx.require_min("carried", 1)
     ctx.require_min("paging", 4)
